@@ -65,7 +65,7 @@ def lemma_norm_sum(p: A[float, 1], l: A[xfloat, 1], S: float, lo: int, hi: int):
 def add_log_prob(x: float, y: float) -> float:
     # log(exp(x) + exp(y)), for all extended reals
     ensures(exp(result) == exp(x) + exp(y))
-    ensures(isninf(result) == (isninf(x) and isninf(y)))
+    ensures(isninf(result) == (isninf(x) and isninf(y)), not isnan(result))
     with before_stmt("return x + np.log1p(np.exp(y - x))"):
         ax_exp_add(x, log(1 + exp(y - x)))
         ax_exp_log(1 + exp(y - x))
@@ -110,3 +110,13 @@ def normalise_log_probs(llks: A[f8, 1]) -> A[f8, 1]:
         with head():
             ax_exp_add(llks[opt] - log_denominator, log_denominator)
             ax_exp_pos(llks[opt] - log_denominator)
+
+
+@lemma(shared=True)
+def lemma_esum_ext(a: A[xfloat, 1], b: A[xfloat, 1], lo: int, hi: int):
+    requires(forall(lo, hi, lambda t: exp(a[t]) == exp(b[t])))
+    ensures(ESUM(a, lo, hi) == ESUM(b, lo, hi))
+    decreases(hi - lo)
+    unfold(ESUM(a, lo, hi), ESUM(b, lo, hi))
+    if hi > lo:
+        lemma_esum_ext(a, b, lo, hi - 1)
